@@ -69,13 +69,14 @@ def run(ctx, chk):
                     chk.ob('C01.W1', 'record.bound<-report+phc', bool(roots) and all('ClockErrorBoundData).0' in r for r in roots), where,
                            'bound depends on %s' % sorted(x[-40:] for x in roots))
                 else:
-                    chk.ob('C01.W1', 'record.as_of<-held-sample', um.updater_field(f[0]) == um.field_of.get(0), where, 'as_of <- %s' % fmt(f[0])[-40:])
-                    chk.ob('C01.W1', 'record.bound<-held-sample', um.updater_field(f[2]) == um.field_of.get(2), where, 'bound <- %s' % fmt(f[2])[-40:])
+                    ph = um.placeholder_record(i, f)       # no sample held yet (an Option that is None): constants, published Unknown
+                    chk.ob('C01.W1', 'record.as_of<-held-sample', ph or um.updater_field(f[0]) == um.field_of.get(0), where, 'as_of <- %s' % fmt(f[0])[-40:])
+                    chk.ob('C01.W1', 'record.bound<-held-sample', ph or um.updater_field(f[2]) == um.field_of.get(2), where, 'bound <- %s' % fmt(f[2])[-40:])
                 chk.ob('C01.W1', 'record.drift<-configured', um.updater_field(f[3]) == um.field_of.get(3), where, 'drift <- %s' % fmt(f[3])[-40:])
                 va = f[1]
                 # computed from the published as_of, or a cached field kept equal to as_of + 1000 s (invariant: C08.B, imported below)
                 chk.ob('C01.W1', 'record.void_after<-as_of', (va[0] == 'agg' and arith.mentions(va, T('field', f[0], 'tv_sec'))) or
-                       um.updater_field(va) is not None, where, 'void_after <- %s' % fmt(va)[-80:])
+                       um.updater_field(va) is not None or (not sync and um.placeholder_record(i, f)), where, 'void_after <- %s' % fmt(va)[-80:])
                 st = fmt(f[5])
                 kind, st_, from_step = um.published(chk, i, ceb)
                 chk.ob('C01.W1', 'record.status<-fsm', (kind == 'fsm' and from_step) or (kind, st_) == ('const', 'Unknown'), where,
